@@ -1,6 +1,7 @@
 package main
 
 import (
+	"go/token"
 	"go/types"
 	"sort"
 	"strings"
@@ -237,6 +238,78 @@ func variadicElems(v ssa.Value) []ssa.Value {
 func (c *Ctx) dsKeysOf(v ssa.Value) []string {
 	if k, ok := dsKeyOf(v); ok {
 		return []string{k}
+	}
+	// a package-level key variable initialised once (var localHeadsKey = datastore.NewKey("…"))
+	if ld, ok := v.(*ssa.UnOp); ok && ld.Op == token.MUL {
+		if g, ok := ld.X.(*ssa.Global); ok && g.Pkg != nil {
+			var ks []string
+			writers := 0
+			seenFn := map[*ssa.Function]bool{}
+			for _, fn := range append(append([]*ssa.Function{}, c.RepoFns...), g.Pkg.Func("init")) {
+				if fn == nil || seenFn[fn] {
+					continue
+				}
+				seenFn[fn] = true
+				eachInstr(fn, func(in ssa.Instruction) {
+					st, ok := in.(*ssa.Store)
+					if !ok || st.Addr != ssa.Value(g) {
+						return
+					}
+					writers++
+					if k, ok := dsKeyOf(st.Val); ok {
+						ks = append(ks, k)
+					}
+				})
+			}
+			if writers == 1 && len(ks) == 1 {
+				return ks
+			}
+			return nil
+		}
+	}
+	// a key handed in as a parameter: what the static callers hand in
+	if p, ok := v.(*ssa.Parameter); ok && strings.HasSuffix(typeStr(p.Type()), "go-datastore.Key") {
+		f := p.Parent()
+		idx := -1
+		for i, q := range f.Params {
+			if q == p {
+				idx = i
+			}
+		}
+		if idx < 0 || c.dsKeyDepth > 2 {
+			return nil
+		}
+		c.dsKeyDepth++
+		defer func() { c.dsKeyDepth-- }()
+		seen := map[string]bool{}
+		var out []string
+		unknown, sites := false, 0
+		for _, g := range c.RepoFns {
+			if c.isTestFile(g.Pos()) {
+				continue
+			}
+			eachCall(g, func(cs ssa.CallInstruction) {
+				if cs.Common().StaticCallee() != f || idx >= len(cs.Common().Args) {
+					return
+				}
+				sites++
+				ks := c.dsKeysOf(cs.Common().Args[idx])
+				if len(ks) == 0 {
+					unknown = true
+				}
+				for _, k := range ks {
+					if !seen[k] {
+						seen[k] = true
+						out = append(out, k)
+					}
+				}
+			})
+		}
+		if unknown || sites == 0 {
+			return nil
+		}
+		sort.Strings(out)
+		return out
 	}
 	call, ok := v.(*ssa.Call)
 	if !ok {
